@@ -4,20 +4,33 @@
    A log recorded from a real implementation - slog.PrintCtx, or the reference bytes.Buffer
    itself - is checked against the deterministic model of Buffer.tla.  One JSON object per line:
 
-     {"op":"New", "b":[..]}                      a buffer constructed with contents b begins a trace
+     {"op":"New", "b":[..], "hold":K}            a buffer constructed with contents b begins a trace;
+                                                 the caller keeps at most K results (oldest forgotten first)
      {"op":<call>, <arguments>, <observations>}  one public call ("NilString": String() on a nil pointer)
+     {"op":"Poke", "h":k, "j":j, "n":v, ...}     the caller executes slice[j] = v (j from 1) on the k-th kept slice
+     {"op":"Fill", "h":k, ...}                   the caller overwrites the k-th kept (owned) slice: b -> 255-b, and
+                                                 appends a byte into whatever spare capacity the slice has
 
    arguments      n   integer argument (len(p) of Read, Next/Truncate/Grow count, byte, rune, delimiter)
                   b   byte argument (Write/WriteString payload; for ReadFrom what the reader delivered)
                   fin ReadFrom: how the reader ended ("eof" / "err" / "neg")
                   avail   Grow: Available() before the call
                   wn, werr   WriteTo: what the writer returned
+                  keep   the caller keeps the slice / string this call returned (Read: p[:n]; Write and
+                         WriteString: the argument) - the slice itself, not a copy of it
+                  scr    Write / WriteString: the caller overwrote its argument right after the call
+                         returned, before the observations of this line were taken (OpWrite copies, so
+                         the model's outcome is that of the call alone)
    observations   pan (panic class, "" = none), err (error class), rn / rm (integer results),
                   rb (returned bytes), len / s / bs (Len(), String(), Bytes() after the call;
                   optional - long contents are logged only now and then),
                   WriteTo: called, wb (was the writer called, with which bytes),
                   ReadFrom: done, after, minp (reader driven to its end, calls after its end,
-                  smallest slice it was offered)
+                  smallest slice it was offered; the reader uses the rest of the slice as scratch space),
+                  hv (optional): the CURRENT contents of every slice the caller keeps, oldest first,
+                  read after the call.  Compared with `held` (Buffer.tla): the model decides which
+                  results are still kept and must be intact (owned copies for ever, aliases until the
+                  next modification - after that the caller has dropped them, as the model did)
 
    The checker is a monitor: it consumes one line per step, computes the model's outcome with
    the SAME operators as the exhaustive model (Do dispatches to the Op* operators) and compares
@@ -29,7 +42,7 @@ EXTENDS Buffer, Json, SequencesExt
 
 CONSTANT TraceFile
 
-VARIABLES i, failed, bad
+VARIABLES i, failed, bad, hold
 
 TLog == ndJsonDeserialize(TraceFile)
 
@@ -61,12 +74,21 @@ HasN(op) == op \in {"Write", "WriteString", "WriteRune", "Read", "ReadByte", "Re
 HasM(op) == op = "ReadRune"
 HasB(op) == op \in {"Read", "Next", "ReadBytes", "ReadString", "Bytes", "String", "NilString"}
 
+\* the caller's own stores through a kept slice (no call of the buffer)
+IsStore(e) == e.op \in {"Poke", "Fill"}
+Legal(H, e) == CASE e.op = "Poke" -> CanPoke(H, e.h, e.j) [] e.op = "Fill" -> CanFill(H, e.h)
+StoreOut(s, H, e) == IF e.op = "Poke" THEN Ok(PokeSt(s, H[e.h], e.j, e.n)) ELSE Ok(s)
+StoreHeld(H, e) == IF e.op = "Poke" THEN PokeHeld(H, e.h, e.j, e.n) ELSE FillHeld(H, e.h)
+ArgOf(e) == IF e.op \in {"Write", "WriteString"} THEN e.b ELSE <<>>
+
 KnownOp(e) == e.op \in {"Write", "WriteString", "WriteByte", "WriteRune", "Read", "Next", "ReadByte", "ReadRune",
                         "UnreadByte", "UnreadRune", "ReadBytes", "ReadString", "Truncate", "Reset", "Grow",
                         "ReadFrom", "WriteTo", "Len", "Bytes", "String", "NilString"}
 
-Match(s, e, o) ==
+Match(s, e, o, H) ==
     /\ e.pan = o.pan
+    /\ Has(e, "hv") => /\ Len(e.hv) = Len(H)
+                       /\ \A k \in DOMAIN H : e.hv[k] = H[k].val
     /\ o.pan = NoPanic =>
          /\ e.err = o.err
          /\ HasN(e.op) => e.rn = o.n
@@ -81,27 +103,36 @@ Match(s, e, o) ==
                             /\ e.minp >= MinRead
 
 Short(b) == IF Len(b) <= 48 THEN b ELSE Take(b, 24) \o <<-1>> \o LastK(b, 24)
-Expect(s, e) ==
-    LET o == Do(s, e)
-    IN ToJson([pan |-> o.pan, err |-> o.err, rn |-> o.n, rm |-> o.m, rb |-> Short(o.b), len |-> Len(o.st.data),
-               s |-> Short(o.st.data), lr |-> o.st.lr, prev |-> o.st.prev,
-               before |-> [len |-> Len(s.data), s |-> Short(s.data), lr |-> s.lr, prev |-> s.prev]])
+ShortHeld(H) == [k \in DOMAIN H |-> [tag |-> H[k].tag, val |-> Short(H[k].val)]]
+Expect(s, e, o, H) ==
+    ToJson([pan |-> o.pan, err |-> o.err, rn |-> o.n, rm |-> o.m, rb |-> Short(o.b), len |-> Len(o.st.data),
+            s |-> Short(o.st.data), lr |-> o.st.lr, prev |-> o.st.prev, held |-> ShortHeld(H),
+            before |-> [len |-> Len(s.data), s |-> Short(s.data), lr |-> s.lr, prev |-> s.prev, held |-> ShortHeld(held)]])
 
-TInit == st = Fresh /\ i = 1 /\ failed = FALSE /\ bad = {}
+TInit == st = Fresh /\ held = <<>> /\ hold = 0 /\ i = 1 /\ failed = FALSE /\ bad = {}
+
+Reject(txt) == /\ UNCHANGED <<st, held>> /\ failed' = TRUE /\ bad' = bad \cup {[line |-> i, expected |-> txt]}
 
 TNext ==
     /\ i <= Len(TLog)
     /\ i' = i + 1
     /\ LET e == TLog[i] IN
-       IF e.op = "New" THEN st' = New(e.b) /\ failed' = FALSE /\ bad' = bad
-       ELSE IF failed THEN UNCHANGED <<st, failed, bad>>
-       ELSE IF ~KnownOp(e) THEN st' = st /\ failed' = TRUE /\ bad' = bad \cup {[line |-> i, expected |-> "unknown call"]}
-       ELSE LET o == Do(st, e)
-            IN IF Match(st, e, o)
-               THEN st' = o.st /\ UNCHANGED <<failed, bad>>
-               ELSE st' = st /\ failed' = TRUE /\ bad' = bad \cup {[line |-> i, expected |-> Expect(st, e)]}
+       IF e.op = "New" THEN st' = New(e.b) /\ held' = <<>> /\ hold' = e.hold /\ failed' = FALSE /\ bad' = bad
+       ELSE /\ hold' = hold
+            /\ IF failed THEN UNCHANGED <<st, held, failed, bad>>
+               ELSE IF IsStore(e)
+               THEN IF ~Legal(held, e) THEN Reject("store through a slice the caller does not (or may no longer) hold")
+                    ELSE LET o == StoreOut(st, held, e)
+                             H == StoreHeld(held, e)
+                         IN IF Match(st, e, o, H) THEN st' = o.st /\ held' = H /\ UNCHANGED <<failed, bad>>
+                            ELSE Reject(Expect(st, e, o, H))
+               ELSE IF ~KnownOp(e) THEN Reject("unknown call")
+               ELSE LET o == Do(st, e)
+                        H == HCall(held, e.op, o, ArgOf(e), e.keep, hold)
+                    IN IF Match(st, e, o, H) THEN st' = o.st /\ held' = H /\ UNCHANGED <<failed, bad>>
+                       ELSE Reject(Expect(st, e, o, H))
 
-TSpec == TInit /\ [][TNext]_<<st, i, failed, bad>>
+TSpec == TInit /\ [][TNext]_<<st, held, hold, i, failed, bad>>
 
 \* evaluated in every state; prints the verdict once the whole log is consumed
 Done == i <= Len(TLog) \/ PrintT("@@bad " \o ToJson(SetToSeq(bad))) \/ TRUE
@@ -109,4 +140,5 @@ Done == i <= Len(TLog) \/ PrintT("@@bad " \o ToJson(SetToSeq(bad))) \/ TRUE
 TTypeOK == IsByteSeq(st.prev) /\ st.lr \in -1..4
 TPrevShape == PrevShape
 TRuneAgain == RuneAgain
+THeld == Len(held) <= hold /\ AliasCoherent
 =============================================================================
